@@ -2,6 +2,10 @@
 from vf.props.C13 import e2job
 
 ASSUMPTIONS = [
+    "E1, writer alone (a necessary condition of write-then-read): on the fixture 'eblif-bus' (a two-bit port on a hierarchical cell, a "
+    "two-bit net, two leaf instances) the real eblif writer is run on TWO symbolic connection patterns; if all written texts are equal "
+    "(rope equality) then every instance pin sits on the same net bit in both -- two different netlists are never written as the "
+    "same text",
     "kernel-level claim (E2, CrossHair/z3): EBLIFParser.get_port_name_and_index reads back name[i] -> (name, i) and a bare "
     "name -> (name, 0) exactly as the composer prints them (find_connected_wire_info / port.name + '[' + str(i) + ']'), for every "
     "name over 'aB9_[]:' up to the length bound and i in 0..120, and raises nothing but ValueError on other bracket text",
@@ -23,4 +27,5 @@ def jobs(tier):
                     timeout=1500, args=dict(tier=tier)))
     out.append(dict(name="C18/connect_two_models", engine="E1/symheap", module="vf.e1.eblif_jobs", func="connect_two_models_job",
                     timeout=1500, args=dict(tier=tier)))
+    out.append(dict(name="C18/eblif-writer-injective", engine="E1/symheap", module="vf.e1.compose_jobs", func="writer_injective_job", timeout=3000, args=dict(which="eblif", tier=tier)))
     return out
